@@ -1,16 +1,45 @@
 #!/bin/bash
-# Build the whole framework offline from files on disk: Lean theorems + native drivers, Rust harnesses.
+# Build the whole framework offline from files on disk: the Lean theorem modules and native model drivers of every
+# property that has a check definition (checks/Cxx.py), and the Rust harness crates they use.
 set -u
 cd "$(dirname "$0")/.."
 export CARGO_NET_OFFLINE=true
 rc=0
-exes=$(grep -A1 '^\[\[lean_exe\]\]' lean/lakefile.toml | grep '^name' | sed 's/name = "\(.*\)"/\1/')
-(cd lean && lake build RlibModel Driver $exes) || rc=1
-for d in harness/e_*/; do
-  [ -f "$d/Cargo.toml" ] || continue
-  (cd "$d" && cargo build --offline --release 2>&1 | tail -2) || rc=1
-  if [ -f "$d/.build_debug_too" ]; then
-    (cd "$d" && cargo build --offline 2>&1 | tail -2) || rc=1
-  fi
+targets=$(python3 - <<'PY'
+import glob, importlib.util, os
+seen = []
+for p in sorted(glob.glob("checks/C*.py")):
+    spec = importlib.util.spec_from_file_location("m", p); m = importlib.util.module_from_spec(spec); spec.loader.exec_module(m)
+    for t in [getattr(m, "PROPS", None), getattr(m, "DRIVER", None)] + list(getattr(m, "EXTRA_LAKE_TARGETS", [])):
+        if t and t not in seen:
+            seen.append(t)
+print(" ".join(seen))
+PY
+)
+crates=$(python3 - <<'PY'
+import glob, importlib.util
+seen = {}
+for p in sorted(glob.glob("checks/C*.py")):
+    spec = importlib.util.spec_from_file_location("m", p); m = importlib.util.module_from_spec(spec); spec.loader.exec_module(m)
+    c = getattr(m, "CRATE", None)
+    if c:
+        seen.setdefault(c, set()).update(getattr(m, "PROFILES", ["release"]))
+    for c2 in getattr(m, "EXTRA_CRATES", []):
+        seen.setdefault(c2, set()).add("release")
+for c, ps in sorted(seen.items()):
+    print(c + ":" + ",".join(sorted(ps)))
+PY
+)
+echo "[setup] lake build $targets"
+(cd lean && lake build $targets) || rc=1
+for item in $crates; do
+  c=${item%%:*}; ps=${item##*:}
+  d=harness/$c
+  [ -f "$d/Cargo.toml" ] || { echo "[setup] missing $d"; rc=1; continue; }
+  for p in ${ps//,/ }; do
+    echo "[setup] cargo build $c ($p)"
+    if [ "$p" = "release" ]; then (cd "$d" && cargo build --offline --release 2>&1 | tail -2) || rc=1
+    else (cd "$d" && cargo build --offline 2>&1 | tail -2) || rc=1; fi
+  done
 done
 exit $rc
